@@ -57,11 +57,18 @@ def _is_rec_field(e, rec, name):
     return e[0] == 'arrow' and e[2] == name and ir.top_nocast(e[1]) in rec
 
 
+# locals that hold the depth as it was at some point of the path being summarised: id -> offset from the depth at the path's start;
+# 'delta' is what the path has added to the depth so far
+_DLOC = {'map': {}, 'delta': 0}
+
+
 def _depth_expr(P, e, rec):
-    """e == depth + k  -> k, else None. Exception_Len(rec) counts as depth."""
+    """e == depth + k  -> k, else None. Exception_Len(rec) counts as depth; so does a local the path loaded the depth into."""
     e = ir.top_nocast(e)
     if _is_rec_field(e, rec, 'depth'):
         return 0
+    if e[0] == 'local' and len(e) > 2 and e[2] in _DLOC['map']:
+        return _DLOC['map'][e[2]] - _DLOC['delta']
     if e[0] == 'call' and ir.callee_name(e) == 'Exception_Len' and ir.top_nocast(e[2][0]) in rec:
         return _check_len_helper(P)
     if e[0] == 'bin' and e[1] in ('+', '-'):
@@ -150,6 +157,7 @@ def summarise(P, name, ctx):
         result = None
         flags = {}        # local boolean flags: id -> ('const', bool) | ('expr', condition it was computed from)
         infeasible = False
+        _DLOC['map'], _DLOC['delta'] = {}, 0
         for ev in util.path_events(path):
             t = ev['t']
             if t == 'cond':
@@ -172,6 +180,11 @@ def summarise(P, name, ctx):
                 lhs = ir.top_nocast(ev['lhs'])
                 if lhs[0] == 'local':
                     if ev['op'] == '=' and ev['rhs'] is not None and len(lhs) > 2:
+                        kd = _depth_expr(P, ev['rhs'], rec)
+                        if kd is not None:
+                            _DLOC['map'][lhs[2]] = _DLOC['delta'] + kd
+                            continue
+                        _DLOC['map'].pop(lhs[2], None)
                         cv = util.const_int(ev['rhs'], P.enums)
                         if cv is not None:
                             flags[lhs[2]] = ('const', bool(cv))
@@ -183,6 +196,7 @@ def summarise(P, name, ctx):
                                 flags.pop(lhs[2], None)
                     continue
                 if _is_rec_field(lhs, rec, 'depth'):
+                    nd0 = len(effects)
                     if ev['op'] == '++':
                         effects.append(('depth', 1))
                     elif ev['op'] == '--':
@@ -203,6 +217,11 @@ def summarise(P, name, ctx):
                             effects.append(('depth', k))
                     else:
                         raise Undecided('depth written with %s in %s' % (ev['op'], name))
+                    for ef_ in effects[nd0:]:
+                        if ef_[0] == 'depth':
+                            _DLOC['delta'] += ef_[1]
+                        else:
+                            _DLOC['map'] = {}
                 elif _is_rec_field(lhs, rec, 'active'):
                     v = util.const_int(ev['rhs'], P.enums) if ev['op'] == '=' else None
                     if v is None:
